@@ -32,7 +32,14 @@ const (
 	NotFound = "notfound"
 	Expired  = "expired"
 	Other    = "other"
+	// Conflict is what a transport that does not distinguish the two lease errors reports (HTTP 409,
+	// gRPC FailedPrecondition); the model accepts it wherever it expects NotFound or Expired.
+	ConflictErr = "conflict"
 )
+
+func isErr(got, want string) bool {
+	return got == want || (got == ConflictErr && (want == NotFound || want == Expired))
+}
 
 type Config struct {
 	MaxDepth        int
@@ -882,13 +889,13 @@ func (m *Model) applyLeaseOp(op Op, obs *Obs) string {
 	}
 	it := m.findLease(strings.TrimSpace(op.Lease))
 	if it == nil {
-		if obs.Err != NotFound {
+		if !isErr(obs.Err, NotFound) {
 			return fmt.Sprintf("%s with stale/unknown lease %q: got %s, want a conflict (lease not found)", op.Kind, op.Lease, obs.Err)
 		}
 		return ""
 	}
 	if now >= it.LeaseUntil {
-		if obs.Err != Expired {
+		if !isErr(obs.Err, Expired) {
 			return fmt.Sprintf("%s with expired lease %q (until %d, now %d): got %s, want lease-expired", op.Kind, op.Lease, it.LeaseUntil, now, obs.Err)
 		}
 		m.requeueExpired(it, now, "expiry")
